@@ -149,7 +149,34 @@ def mutants(args):
             drop_scratch(d)
     # evidence files written by these runs describe the mutated tree: restore them from the last commit
     sh(["git", "-C", VERIF, "checkout", "--", "evidence"])
+    # record what was observed (merged with earlier results for mutants not run this time)
+    path = os.path.join(VERIF, "seeded", "RESULTS.json")
+    old = json.load(open(path)) if os.path.exists(path) else {}
+    for name, ok, caught in results:
+        old[name] = {"caught": ok, "checks": [{"property": p, "violation": h, "first_clause": f, "seconds": round(dt)} for p, h, f, dt in caught]}
+    json.dump(old, open(path, "w"), indent=1, sort_keys=True)
+    write_detection_table(old)
     return rc
+
+
+def write_detection_table(results):
+    lines = ["# Seeded changes and which checks catch them", "",
+             "Generated by `./check selftest mutants` (tools/selftests.py) from seeded/*/meta.json and the observed results; every",
+             "change compiles, passes the repository's 10 tests and comes with a demonstration (see each directory).", "",
+             "| change | breaks | origin | needs | checks run (quick tier) | result |", "|---|---|---|---|---|---|"]
+    for meta in sorted(glob.glob(os.path.join(VERIF, "seeded", "*", "meta.json"))):
+        name = os.path.basename(os.path.dirname(meta))
+        m = json.load(open(meta))
+        r = results.get(name)
+        if not r:
+            continue
+        checks = ", ".join("%s: %s" % (c["property"], (c["first_clause"].split("clause=")[1].split(" ")[0] if c["violation"] and "clause=" in c["first_clause"] else ("violation" if c["violation"] else "quiet"))) for c in r["checks"])
+        origin = "sub-agent" if "sub-agent" in m.get("origin", "") else "own"
+        needs = m.get("needs", "")
+        if needs == "see README.md":
+            needs = m.get("summary", "see README.md")
+        lines.append("| %s | %s | %s | %s | %s | %s |" % (name, m["property"], origin, needs.replace("|", "/")[:160], checks, "caught" if r["caught"] else "MISSED"))
+    open(os.path.join(VERIF, "seeded", "DETECTION.md"), "w").write("\n".join(lines) + "\n")
 
 
 def main(args):
